@@ -3,7 +3,7 @@ NK = 3
 Sizes = {1, 2}
 Dlys = {0, 2}
 Ttls = {1, 3}
-MaxMax = 4
+Resizes = {0, 1, 2, 3, 4}
 MaxNow = 3
 MaxEvents = 4
 InitMax = 3
